@@ -680,8 +680,16 @@ func tailStr(b []byte, n int) string {
 // ---- C04: editor session ---------------------------------------------------------------------
 
 type tiSession struct {
-	grid []gridEntry
-	n    int
+	grid  []gridEntry
+	n     int
+	extra []Prog // generated programs that take part in the grid (indexes after the corpus)
+}
+
+func (o *tiSession) prog(c *Ctx, pi int) Prog {
+	if pi < len(c.Corpus) {
+		return c.Corpus[pi]
+	}
+	return o.extra[pi-len(c.Corpus)]
 }
 
 type gridEntry struct {
@@ -698,17 +706,30 @@ func (o *tiSession) Init(c *Ctx) {
 		for k := 0; k < 6; k++ {
 			o.addGrid(c, r.Intn(len(c.Corpus)), 12, 3)
 		}
+		o.addProbeGrids(c, 1, 6)
 	default:
 		o.n = 30000
 		for pi := range c.Corpus {
 			o.addGrid(c, pi, 40, 1)
 		}
+		o.addProbeGrids(c, 24, 2)
+	}
+}
+
+// addProbeGrids puts generated user-method probe programs (documented methods, class-level,
+// namespaced and inherited receivers, incomplete calls) through the same exhaustive
+// prefix x row x mode grid as the corpus programs.
+func (o *tiSession) addProbeGrids(c *Ctx, n, stride int) {
+	for k := 0; k < n; k++ {
+		src, _ := userProbe(Stream(c.Seed, "C04", k, "probe-grid"))
+		o.extra = append(o.extra, Prog{fmt.Sprintf("user-probe-%d", k), src})
+		o.addGrid(c, len(c.Corpus)+len(o.extra)-1, 80, stride)
 	}
 }
 
 // addGrid: every prefix at a line or token boundary x every row 0..lines+2 x three modes.
 func (o *tiSession) addGrid(c *Ctx, pi, maxLines, stride int) {
-	p := c.Corpus[pi]
+	p := o.prog(c, pi)
 	if bytes.Count(p.Src, []byte("\n")) > maxLines {
 		return
 	}
@@ -781,7 +802,7 @@ func (o *tiSession) Make(c *Ctx, i int) *Case {
 		lo := (i - o.n) * 24
 		for k := lo; k < lo+24 && k < len(o.grid); k++ {
 			e := o.grid[k]
-			p := c.Corpus[e.prog]
+			p := o.prog(c, e.prog)
 			content := p.Src[:e.cut]
 			cs.Steps = append(cs.Steps, Step{Node: "ti", Files: map[string][]byte{target: content},
 				Argv: []string{target, queryModes[e.mode], fmt.Sprintf("--row=%d", e.row)}, Seed: uint64(k), Sched: "canon",
